@@ -121,6 +121,13 @@ theorem allocBound_peerUfrag (bs : List UInt8) : (runSlice Ice.peerUfrag bs).all
   have h := safe_allocs (Ice.peerUfrag_safe bs.toArray (Buf.ofList []))
   simpa [runSlice] using h
 
+/-- witness for the known finding `retain:shared_udp::dispatch:registered-ufrag-per-source`: the demux key is extracted from a
+Binding request that carries nothing but a USERNAME — 28 bytes, no MESSAGE-INTEGRITY, any transaction id — so whoever knows a
+session's ufrag (it is sent in clear) makes the shared port learn a route for its own source address. -/
+theorem shared_udp_route_unauthenticated_witness :
+    (match runSlice Ice.peerUfrag ([0, 1, 0, 8, 0x21, 0x12, 0xA4, 0x42] ++ List.replicate 12 0 ++ [0, 6, 0, 3, 97, 58, 98, 0]) with
+     | .ok r _ _ => r.1 && decide (r.2 = #[97]) | _ => false) = true := by decide +kernel
+
 /-- `IceTransport::handle_turn_packet` (ChannelData framing, Data indication unwrapping, fall-through) followed by
 the first-byte classifier of `handle_packet` is total for every datagram from the TURN server, whether or not the
 channel is bound — including zero-length ChannelData / DATA payloads (after the `fix:` commit). -/
@@ -199,12 +206,14 @@ theorem noPanic_serverExtWalk (bs : List UInt8) (s : String) : runBuf Dtls.serve
 endpoint that has no keys yet (client or server) — the record loop of `handle_incoming_packet` (decode, epoch-0
 application-data skip, undecryptable-record break, alert indexing, error ends the datagram) and inside it the message
 loop of `process_handshake_payload` (messages decoded by the `HandshakeMessage::decode` model): the acceptance /
-fragment-reassembly bookkeeping of `process_handshake_payload` — sequence acceptance with the post-HVR re-sync, the
-clear-text-after-keys skip, buffer reset, the offset check, append, completion, `checked_add` of `recv_message_seq`,
+fragment-reassembly bookkeeping of `process_handshake_payload` — sequence acceptance with the post-HVR re-sync (only on a
+ServerHello), buffer reset, the offset / overlap check, append, completion, `checked_add` of `recv_message_seq`,
 transcript append — never panics, leaves its loop, keeps `recv_message_seq` inside u16 (exhaustion ends the payload with
 an error) and keeps `incomplete_handshake` below 2^24 bytes. The model is compared with the real run loop on every run
 (stream `dtlsctx`: real multi-record datagrams into a real `DtlsTransport`; the context is published by a hook after each
-datagram; handshake message types whose handler is a no-op for the endpoint's role). Handlers themselves (crypto, certificates, flights) are outside the model. -/
+datagram; handshake message types whose handler is a no-op for the endpoint's role; one session per run drives the counter to
+its end so that the error flag is compared as well). The endpoint has no keys: the clear-text-after-keys skip, protected alerts and
+every handler (crypto, certificates, flights) are outside the model. -/
 theorem dtls_reassembly_bounded (isClient : Bool) (datagrams : List (List UInt8)) (b : Buf) (n : Nat) (site : String) :
     Dtls.datagramHistory isClient {} datagrams b n ≠ .panic site ∧
     ∀ cs b' n', Dtls.datagramHistory isClient {} datagrams b n = .ok cs b' n' →
@@ -242,7 +251,8 @@ every loop is left: besides the byte walkers this covers the state that decides 
 in-order fast path, `received_queue` insert and in-order drain of `handle_data` (queued chunk values are re-parsed by
 `process_data_payload` when drained: the proof carries the invariant that every queued value kept its 12-byte header),
 the T1 gates of INIT-ACK / COOKIE-ACK, duplicate INIT, COOKIE-ECHO, FORWARD-TSN with its queue `retain`, RE-CONFIG
-request numbering, DCEP channel creation, and handler errors that end a packet. The model is compared with a real
+request numbering, DCEP reassembly and channel creation (bounded, see below). Not in the model: `InboundStream` ordering, user-message
+reassembly content, the send side, timers, and handler errors (`?` on a failed send — cannot occur while the link is open). The model is compared with a real
 association on every run (stream `sctpassoc`: replies, created channels, cumulative TSN, queue length, peer rwnd). -/
 theorem noPanic_sctpHistory (ps : List SctpSt.Pkt) (clientSide : Bool) (b : Buf) (n : Nat) (site : String) :
     SctpSt.runHistory (if clientSide then { t1 := 1, hasTag := true } else {}) ps b n ≠ .panic site := by
@@ -314,12 +324,25 @@ theorem mid_update_total (nextMid mid : Nat) (b : Buf) (n : Nat) (site : String)
   simp only at h
   omega
 
-/-- witness for the known finding `retain:SctpInner::handle_packet:dcep-open-per-stream`: on an established association that
-already has 1024 channels a 12-byte DCEP OPEN on one more stream id creates one more — nothing in `handle_dcep` (nor in this model
-of it, which the `sctpassoc` stream compares with the code) limits the number of channels a peer can make the endpoint keep. -/
-theorem dcep_open_unbounded_witness :
+/-- `handle_dcep` (after the `fix:` commit): the only place that creates data channels never takes their number beyond
+`MAX_DATA_CHANNELS` (generated constant, 1024) — whatever the message, on whatever stream id, from whatever state. Before the fix
+every DCEP OPEN on an unused stream id created a ≈ 2.6 KB channel that was kept (up to the 65 536 stream ids of the `u16`,
+≈ 170 MB per association; finding `retain:SctpInner::handle_packet:dcep-open-per-stream`, now fixed). -/
+theorem dcep_open_channels_bounded (s : SctpSt.St) (sid : Nat) (b : Buf) (n : Nat) :
+    match SctpSt.handleDcepSt s sid b n with
+    | .ok s' _ _ => s'.chans.length ≤ max s.chans.length RtcModel.Generated.c07MaxDataChannels
+    | _ => True := by
+  have h := SctpSt.handleDcepSt_chans s sid (Q := fun s' _ _ => s'.chans.length ≤ max s.chans.length RtcModel.Generated.c07MaxDataChannels) (b := b) (n := n)
+    (fun _ _ _ hh => hh)
+  unfold safe at h
+  split <;> simp_all
+
+/-- the boundary case evaluated: with 1024 live channels an OPEN on a new stream id creates nothing, an OPEN with 1023 does. -/
+theorem dcep_open_cap_witness :
     (match SctpSt.handleDcepSt { state := 1, chans := List.range 1024 } 1024 (Buf.ofList [3, 0, 0, 0, 0, 0, 0, 0, 0, 0, 0, 0]) 0 with
-     | .ok s _ _ => decide (s.chans.length = 1025) | _ => false) = true := by decide +kernel
+     | .ok s _ _ => decide (s.chans.length = 1024) | _ => false) = true ∧
+    (match SctpSt.handleDcepSt { state := 1, chans := List.range 1023 } 1024 (Buf.ofList [3, 0, 0, 0, 0, 0, 0, 0, 0, 0, 0, 0]) 0 with
+     | .ok s _ _ => decide (s.chans.length = 1024) | _ => false) = true := by decide +kernel
 
 /-- witness kept visible: the pre-fix arithmetic `mid_val + 1` panics for `a=mid:65535` in a build with overflow
 checks (cargo's dev profile) — and silently wraps to 0 in the release profile. -/
